@@ -106,3 +106,21 @@ def cond_roots(x):
     for c in x.conds:
         go(c)
     return out
+
+
+IMMUTABLE_ATOMS = frozenset(["str", "int", "float", "bool", "NoneType", "bytes"])
+
+
+def payload_is_isolated(p, payload, obj):
+    """the wrapped payload cannot share mutable state with the argument: it is copy.deepcopy(obj),
+    or it is obj itself on a path where obj's exact type is an immutable atom (for which deepcopy
+    returns the same object anyway)"""
+    from sa.terms import is_call
+    from sa.walker import State
+
+    if is_call(payload, "ext:copy.deepcopy") and payload[2] == (obj,):
+        return True
+    if payload == obj:
+        ts = State(facts=p.facts).types(obj)
+        return ts is not None and ts <= IMMUTABLE_ATOMS
+    return False
